@@ -60,11 +60,15 @@ type scen struct {
 	shuts  []*call
 	loops  []*call // conc: the submitting goroutines (a call that has not begun has no goroutine of its own)
 	nrun   int64
+	// who ran the tasks and how many at a time
+	inflight, maxInflight int64
+	workers               map[int]bool // goroutine ids that ran a task
+	work                  int          // > 0: a task body yields this many times (so that overlaps show)
 }
 
 func newScen(nw, capacity int, kinds func(int) (int, bool)) *scen {
 	return &scen{ex: sched.NewThreadPoolExecutor(nw, capacity).(*sched.ThreadPoolExecutor),
-		endSeq: map[int]int64{}, runs: map[int]int{}, gates: map[int]chan struct{}{}, kinds: kinds}
+		endSeq: map[int]int64{}, runs: map[int]int{}, gates: map[int]chan struct{}{}, kinds: kinds, workers: map[int]bool{}}
 }
 
 func (s *scen) gate(t int) chan struct{} {
@@ -92,14 +96,27 @@ var errTask = errors.New("task failed")
 func (s *scen) task(t int) sched.Runnable {
 	return sched.NewTask(func() error {
 		outcome, gated := s.kinds(t)
+		n := atomic.AddInt64(&s.inflight, 1)
+		for {
+			m := atomic.LoadInt64(&s.maxInflight)
+			if n <= m || atomic.CompareAndSwapInt64(&s.maxInflight, m, n) {
+				break
+			}
+		}
+		gid := Goid()
 		s.mu.Lock()
 		s.start = append(s.start, t)
 		s.runs[t]++
+		s.workers[gid] = true
 		s.mu.Unlock()
 		atomic.AddInt64(&s.seq, 1)
 		if gated {
 			<-s.gate(t)
 		}
+		for i := 0; i < s.work; i++ {
+			runtime.Gosched()
+		}
+		atomic.AddInt64(&s.inflight, -1)
 		s.mu.Lock()
 		s.end = append(s.end, t)
 		if _, ok := s.endSeq[t]; !ok {
@@ -120,8 +137,12 @@ func (s *scen) task(t int) sched.Runnable {
 // execute runs Execute(task t) on the calling goroutine and records how it ended.
 func (s *scen) execute(c *call, t int) {
 	atomic.StoreInt32(&c.gid, int32(Goid()))
+	s.executeReady(c, s.task(t))
+}
+
+// executeReady: everything is prepared, the next thing that happens is Execute itself.
+func (s *scen) executeReady(c *call, r sched.Runnable) {
 	var err error
-	r := s.task(t)
 	p, _ := Catch(func() { err = s.ex.Execute(r) })
 	st := int32(1)
 	if p {
@@ -270,6 +291,10 @@ func runScript(in Sx) Sx {
 			c := &call{}
 			s.shuts = append(s.shuts, c)
 			go s.shutdown(c)
+		case 3: // open several gates at once
+			for j := 1; j < op.Len(); j++ {
+				s.release(op.At(j).AsInt())
+			}
 		}
 		ok, st, alive, sh := s.settle(settleLimit)
 		s.mu.Lock()
@@ -316,18 +341,36 @@ func runConc(in Sx) Sx {
 		}
 	}
 	s := newScen(nw, capacity, func(t int) (int, bool) { return outc[t], false })
+	spin := in.Len() > 7 && in.At(7).AsInt() == 1
+	if spin {
+		s.work = 3
+	}
 	for i := 0; i < total; i++ {
 		s.calls = append(s.calls, &call{})
 	}
 	var barrier sync.WaitGroup
+	var spinGo, spinReady int32
 	barrier.Add(1)
 	for g := 0; g < nsub; g++ {
 		lp := &call{}
 		s.loops = append(s.loops, lp)
 		go func(g int) {
-			atomic.StoreInt32(&lp.gid, int32(Goid()))
-			barrier.Wait()
-			for i := 0; i < per; i++ {
+			gid := int32(Goid())
+			atomic.StoreInt32(&lp.gid, gid)
+			first := 0
+			if spin { // leave at the same instant, with the first call fully prepared
+				t := g * per
+				r := s.task(t)
+				atomic.StoreInt32(&s.calls[t].gid, gid)
+				atomic.AddInt32(&spinReady, 1)
+				for atomic.LoadInt32(&spinGo) == 0 {
+				}
+				s.executeReady(s.calls[t], r)
+				first = 1
+			} else {
+				barrier.Wait()
+			}
+			for i := first; i < per; i++ {
 				t := g*per + i
 				s.execute(s.calls[t], t)
 			}
@@ -342,6 +385,12 @@ func runConc(in Sx) Sx {
 		}
 		return true
 	}
+	if spin { // wait until every caller spins in front of its first Execute
+		for dl := time.Now().Add(time.Second); atomic.LoadInt32(&spinReady) < int32(nsub) && time.Now().Before(dl); {
+			runtime.Gosched()
+		}
+	}
+	atomic.StoreInt32(&spinGo, 1)
 	barrier.Done()
 	// wait for the moment to call Shutdown: `shutafter` task bodies have run, or every caller is
 	// back, or the scenario has come to rest (callers parked for good)
@@ -380,6 +429,11 @@ func runConc(in Sx) Sx {
 		}
 	}
 	shutret := len(shs) > 0 && shs[0] == 1 && effective
+	// Shutdown of a running executor has not returned although everything is parked (goroutine dump)
+	shutpending := ok && effective && len(shs) > 0 && shs[0] == 0
+	if shutpending {
+		atomic.AddInt32(&stuckSeen, 1)
+	}
 	s.mu.Lock()
 	early, runs, endedb := make([]int, total), make([]int, total), make([]int, total)
 	for t := 0; t < total; t++ {
@@ -392,6 +446,20 @@ func runConc(in Sx) Sx {
 			endedb[t] = 1
 		}
 	}
+	// per submitter its tasks must have started in the order it submitted them (checked for nw = 1)
+	orderOK := true
+	last := make([]int, nsub)
+	for g := range last {
+		last[g] = -1
+	}
+	for _, t := range s.start {
+		if g := t / per; t > last[g] {
+			last[g] = t
+		} else {
+			orderOK = false
+		}
+	}
+	nworkers := len(s.workers)
 	s.mu.Unlock()
 	for _, x := range st {
 		if x == 4 {
@@ -399,7 +467,8 @@ func runConc(in Sx) Sx {
 			break
 		}
 	}
-	return List(ints(st), ints(early), ints(runs), ints(endedb), Int(int64(alive)), Bool(shutret), Bool(inconclusive))
+	return List(ints(st), ints(early), ints(runs), ints(endedb), List(Int(int64(alive)), Bool(shutret), Bool(inconclusive),
+		Int(atomic.LoadInt64(&s.maxInflight)), Int(int64(nworkers)), Bool(orderOK), Bool(shutpending)))
 }
 
 func run(in Sx) Sx {
@@ -424,6 +493,25 @@ func genScript(rng *Rng, directed int) Sx {
 			gatedOpen = append(gatedOpen, nexec)
 		}
 		nexec++
+	}
+	if directed == 2 {
+		// all workers busy, queue loaded, Shutdown, then all workers are let go at the same moment:
+		// several workers drain the queue together
+		nw = rng.Range(2, 4)
+		capacity = rng.Range(3, 8)
+		for j := 0; j < nw; j++ {
+			addExec(0, true)
+		}
+		for j := 0; j < capacity; j++ {
+			addExec(rng.PickInt(0, 0, 1, 2), false)
+		}
+		ops = append(ops, Ints(2))
+		all := []int64{3}
+		for j := 0; j < nw; j++ {
+			all = append(all, int64(j))
+		}
+		ops = append(ops, Ints(all...))
+		return List(Int(0), Int(int64(nw)), Int(int64(capacity)), ListOf(kinds), ListOf(ops))
 	}
 	if directed == 1 {
 		// worker busy, queue loaded, then Shutdown, then the worker is let go
@@ -475,6 +563,16 @@ func genScript(rng *Rng, directed int) Sx {
 	return List(Int(0), Int(int64(nw)), Int(int64(capacity)), ListOf(kinds), ListOf(ops))
 }
 
+// many fresh small executors, each met by a few callers at the same instant
+func genFresh(rng *Rng) Sx {
+	nw := rng.PickInt(1, 1, 1, 2)
+	nsub := rng.Range(2, 4)
+	per := rng.Range(2, 6)
+	capacity := rng.PickInt(0, 1, 4, nsub*per)
+	return List(Int(1), Int(int64(nw)), Int(int64(capacity)), Int(int64(nsub)), Int(int64(per)),
+		Uint(rng.Next()>>1), Int(int64(nsub*per)), Int(1))
+}
+
 func genConc(rng *Rng, race bool) Sx {
 	nw := rng.Range(1, 8)
 	capacity := rng.PickInt(0, 1, 2, 4, 8, 16)
@@ -504,9 +602,9 @@ func nontrivial(in Sx) bool {
 
 func gen(a Args, out *Out) {
 	rng := NewRng(a.Seed)
-	nscript, ndir, nconc, nrace := 220, 24, 60, 40
+	nscript, ndir, nconc, nrace, nfresh := 220, 24, 60, 40, 400
 	if a.Thorough() {
-		nscript, ndir, nconc, nrace = 4000, 300, 1500, 800
+		nscript, ndir, nconc, nrace, nfresh = 4000, 300, 1500, 800, 10000
 	}
 	emit := func(kind string, in Sx) {
 		if atomic.LoadInt32(&stuckSeen) >= 12 {
@@ -532,7 +630,7 @@ func gen(a Args, out *Out) {
 			}
 		} else {
 			out.CountN("conc:tasks", in.At(3).AsInt()*in.At(4).AsInt())
-			if obs.At(6).AsBool() {
+			if obs.At(4).At(2).AsBool() {
 				out.Count("inconclusive:not-quiescent-within-deadline")
 			}
 			for j := 0; j < obs.At(0).Len(); j++ {
@@ -543,7 +641,11 @@ func gen(a Args, out *Out) {
 				e += obs.At(1).At(j).AsInt()
 			}
 			out.CountN("conc:returned-before-shutdown", e)
-			if obs.At(5).AsBool() {
+			out.Count("conc:max-in-flight=" + strconv.Itoa(obs.At(4).At(3).AsInt()))
+			if obs.At(4).At(6).AsBool() {
+				out.Count("conc:Shutdown parked for good")
+			}
+			if obs.At(4).At(1).AsBool() {
 				out.Count("conc:effective-shutdown-returned")
 			}
 		}
@@ -551,6 +653,11 @@ func gen(a Args, out *Out) {
 	r1, r2, r3, r4 := rng.Fork(), rng.Fork(), rng.Fork(), rng.Fork()
 	for i := 0; i < ndir; i++ {
 		emit("drain", genScript(r1, 1))
+		emit("drain", genScript(r1, 2))
+	}
+	r5 := rng.Fork()
+	for i := 0; i < nfresh; i++ {
+		emit("fresh", genFresh(r5))
 	}
 	for i := 0; i < nscript; i++ {
 		emit("script", genScript(r2, 0))
